@@ -8,7 +8,7 @@ func init() {
 			n := 1
 			_ = tier
 			return []*Job{f4Job("interfere", "VerifInterfere", n, []string{"ran"}, []string{"C11-shift"},
-				"host program (10 hosts: if/else narrowing, builtin calls, def+call, class method, do-block, case/in, brace block+elsif; leaf kinds solver variables) x independent fragment (5: conditional, array literal, builtin call on a union, block, string call) x every statement boundary of the host that is not the last statement of its body; host alone vs host+fragment in one path (Snapshot/Restore)")}
+				"host program (12 hosts: if/else narrowing, builtin calls, def+call, class method, do-block, case/in, brace block+elsif; leaf kinds solver variables) x independent fragment (8: conditional, array literal, builtin call on a union, block, string call, modifier-if, while loop, hash literal + lookup) x every statement boundary of the host that is not the last statement of its body; host alone vs host+fragment in one path (Snapshot/Restore)")}
 		},
 		Custom:    replayPair,
 		Filter:    func(v *Violation) bool { return strings.HasPrefix(v.ID, "C11") },
